@@ -121,6 +121,14 @@ Proof.
     destruct (st w) eqn:Est; [rewrite (B eq_refl); reflexivity | |]; destruct (is_closed w); reflexivity.
   - destruct r; reflexivity.
   - reflexivity.
+  - (* a receive that is cancelled if it parks *)
+    destruct (op_recv_table 0 c w) as [A B]. unfold run_op, op_recv_cancelled, misuse_ok, pub_of.
+    destruct (st w) eqn:Est.
+    + unfold require_accepted. rewrite Est. reflexivity.
+    + assert (Er : require_accepted w = None) by (unfold require_accepted; rewrite Est; reflexivity).
+      rewrite Er. destruct (would_park c w); [destruct (is_closed w); reflexivity|].
+      rewrite A. destruct (is_closed w); reflexivity.
+    + unfold require_accepted. rewrite Est. cbn. destruct (is_closed w); reflexivity.
 Qed.
 
 (* the table is false of the code as found: the finding *)
@@ -231,6 +239,7 @@ Proof.
   - apply ext_same. eapply op_recv_trace; eauto.
   - injection H as <- <-. apply ext_refl.
   - injection H as <- <-. apply ext_same. apply advance_trace.
+  - apply ext_same. apply (op_recv_cancelled_frame _ _ _ _ _ H).
 Qed.
 
 Lemma run_script_ext f hr c sc : mk_ok f c -> forall w rs e w', run_script f hr c sc w = (rs, e, w') -> ext c w w'.
@@ -408,7 +417,7 @@ Qed.
 
 (* every operation other than a receive and close() leaves the undelivered events alone *)
 Theorem stream_frame f hr c o w r w' :
-  match o with ORecvText | ORecvData | ORecvMedia | OClose _ _ => False | _ => True end ->
+  match o with ORecvText | ORecvData | ORecvMedia | ORecvCancelled | OClose _ _ => False | _ => True end ->
   run_op f hr c o w = (r, w') -> stream w' = stream w.
 Proof.
   assert (DS : forall e w x w', do_send e w = (x, w') -> stream w' = stream w).
@@ -523,4 +532,35 @@ Proof.
   exists (fun _ => true), (mkCfg true true 1 1011 KArray), [],
          (Routed [(OAccept SubNone HNone, false); (OSendMedia true 7, false)]), [CDisc None], [].
   split; vm_compute; reflexivity.
+Qed.
+
+(* a receive cancelled while parked consumes nothing and changes nothing *)
+Lemma cancelled_receive_is_noop f c w r w' :
+  op_recv_cancelled f c w = (r, w') -> r = Ret VCancelled -> w' = w.
+Proof.
+  unfold op_recv_cancelled. destruct (require_accepted w); [intros H ->; discriminate|].
+  destruct (would_park c w); [intros H _; injection H as _ <-; reflexivity|].
+  intros H ->. exfalso. unfold op_recv in H. destruct (require_accepted w); [discriminate|].
+  destruct (do_receive f c w) as [[[e|x]|u] w1]; try discriminate.
+  destruct e; discriminate.
+Qed.
+
+(* a WebSocketDisconnected raised by the responder itself while its own client is connected
+   (it concerns another socket): the wrapper still closes, with the error close code *)
+Lemma spontaneous_disconnect_closes hr c cl co (accepted : bool) :
+  let sc := (if accepted then [(OAccept SubNone HNone, false)] else []) ++ [(ORaise (RDisc co), false)] in
+  let '(rs, e, w) := session true hr c true [] (Routed sc) cl [] in
+  e = Returned /\ st w = Closed /\
+  exists (code : Z) (r : bool), last (closes w) (EText 0%N KExact) = EClose code r
+                 /\ code = (if valid_code (err_code c) then err_code c else 3011).
+Proof.
+  destruct accepted; cbn -[op_close code_check valid_code];
+    unfold session, run_script, run_op, raise_exc, handle_exception, cleanup; cbn [negb app].
+  - unfold op_accept; cbn -[op_close code_check valid_code].
+    destruct (valid_code (err_code c)) eqn:Hv.
+    + unfold op_close. rewrite (code_check_valid _ Hv). cbn. repeat split; eauto.
+    + unfold op_close at 1. rewrite !(code_check_invalid _ Hv). cbn. repeat split; eauto.
+  - destruct (valid_code (err_code c)) eqn:Hv.
+    + rewrite (close_valid_fresh _ _ _ _ Hv). cbn. repeat split; eauto.
+    + unfold op_close at 1. rewrite !(code_check_invalid _ Hv). cbn. repeat split; eauto.
 Qed.
